@@ -4,7 +4,9 @@
 #![allow(unused, clippy::all, static_mut_refs)]
 pub mod util;
 mod probes;
+mod c00;
 mod c01;
+mod c02;
 mod c04;
 mod c07;
 mod c10;
